@@ -710,3 +710,100 @@ def resolve_upvar(F, origin):
                 if name == origin.data or name.lstrip("*&") == str(origin.data).lstrip("*&"):
                     return parent, op
     return None
+
+# ---------------------------------------------------------------------------
+# forward flow: where does the value produced at a call site end up?
+
+PASS_THROUGH = TRANSPARENT + (
+    "chrono::DateTime::<Tz>::timestamp", "std::option::Option::<T>::unwrap", "std::option::Option::<T>::expect",
+    "std::option::Option::<T>::map", "std::result::Result::<T, E>::unwrap", "as std::ops::Try>::branch",
+    "std::option::Option::<T>::unwrap_or", "std::option::Option::<T>::or",
+)
+
+def _reads(op, local):
+    return op[0] in ("cp", "mv") and op[1][0] == local
+
+def forward_sinks(fn, start_local, pass_through=PASS_THROUGH, limit=200):
+    """Sinks of the value held in start_local: list of
+    ('write', [field names], bi) | ('aggfield', adt, field, bi) | ('callarg', callee, idx, bi) | ('ret', bi) | ('switch', bi)"""
+    sinks = []; work = [start_local]; seen = {start_local}
+    while work and len(seen) < limit:
+        L = work.pop()
+        if L == 0: sinks.append(("ret", None)); continue
+        for bi, b in enumerate(fn.blocks):
+            if b["cleanup"]: continue
+            for s in b["s"]:
+                if s[0] != "=": continue
+                dst, rv = s[1], s[2]
+                reads = False; aggfield = None
+                k = rv[0]
+                if k == "use": reads = _reads(rv[1], L)
+                elif k == "ref": reads = rv[2][0] == L
+                elif k == "cast": reads = _reads(rv[2], L)
+                elif k in ("bin",): reads = _reads(rv[2], L) or _reads(rv[3], L)
+                elif k == "un": reads = _reads(rv[2], L)
+                elif k == "discr": reads = False
+                elif k == "agg":
+                    for i, o in enumerate(rv[2]):
+                        if _reads(o, L):
+                            reads = True
+                            kd = rv[1]
+                            if kd.get("k") == "adt" and not kd.get("is_enum") and i < len(kd.get("fields", [])):
+                                aggfield = (kd["adt"], kd["fields"][i])
+                if not reads: continue
+                if aggfield is not None:
+                    sinks.append(("aggfield", aggfield[0], aggfield[1], bi)); continue
+                fields = [e[2] for e in dst[1:] if not isinstance(e, str) and e[0] == "f"]
+                if fields and not (len(dst) == 2 and not isinstance(dst[1], str) and dst[1][0] == "f" and dst[1][3] == "tuple"):
+                    sinks.append(("write", fields, bi))
+                elif dst[0] not in seen:
+                    seen.add(dst[0]); work.append(dst[0])
+            t = b["t"]
+            if t[0] == "call":
+                for i, a in enumerate(t[2]):
+                    if _reads(a, L):
+                        if call_matches(t, pass_through):
+                            d = t[3]
+                            fields = [e[2] for e in d[1:] if not isinstance(e, str) and e[0] == "f"]
+                            if fields: sinks.append(("write", fields, bi))
+                            elif d[0] not in seen: seen.add(d[0]); work.append(d[0])
+                        else:
+                            sinks.append(("callarg", callee(t), i, bi))
+            elif t[0] == "switch" and _reads(t[1], L):
+                sinks.append(("switch", bi))
+    return sinks
+
+def promoted_value(F, c):
+    """symbolic value returned by a promoted / named constant body"""
+    body = None
+    if c.get("k") == "promoted": body = F.fn("%s::promoted[%d]" % (c["of"], c["idx"]))
+    elif c.get("named"): body = F.fn(c["named"])
+    if body is None: return None
+    ps = enum_paths(body)
+    if len(ps) != 1: return None
+    return SymPath(body, ps[0]).ret()
+
+def sym_value(F, fn, op):
+    """symbolic text of an operand when it is a constant / promoted / straight aggregate (single reaching definition chain)"""
+    os = trace_op(fn, op)
+    outs = []
+    for o in os:
+        if o.kind == "const":
+            c = o.data
+            if c.get("k") in ("promoted",) or (c.get("named") and c.get("k") in ("other", None)):
+                v = promoted_value(F, c)
+                outs.append(show(v) if v is not None else "?")
+            else:
+                from facts import fmt_const
+                outs.append(fmt_const(c))
+        elif o.kind == "agg":
+            rv = rv_at(o.fn, *o.data)
+            kd = rv[1]
+            inner = ",".join(sym_value(F, o.fn, a) for a in rv[2])
+            nm = (kd.get("adt", kd.get("k")).split("::")[-1] + "::" + kd.get("variant", "")) if kd.get("k") == "adt" else kd.get("k")
+            outs.append("%s(%s)" % (nm, inner) if inner else nm)
+        elif o.kind == "param":
+            outs.append("p%d%s" % (o.data, "." + o.path_str() if o.path else ""))
+        else:
+            outs.append(repr(o))
+    return "|".join(sorted(set(outs)))
